@@ -899,7 +899,12 @@ def glue_greenlet() -> None:
                     "Can't dump the stack of a greenlet running in another thread"
                 )
             # since it's running in this thread, its stack is our own
-            inner_frame = get_true_caller()
+            own_frame = find_true_caller()
+            if own_frame is None:
+                # ... of which it holds no part: its entry point is one of
+                # our own functions
+                return []
+            inner_frame = own_frame
             if glet.parent is not None:
                 outer_frame = inner_frame
                 assert outer_frame is not None
